@@ -365,6 +365,9 @@ func AuthorizeTokenExchangeClient(ctx context.Context, clientID, clientSecret st
 	if err != nil {
 		return nil, oidc.ErrInvalidClient().WithParent(err)
 	}
+	if client.AuthMethod() == oidc.AuthMethodPrivateKeyJWT {
+		return nil, oidc.ErrInvalidClient().WithDescription("private_key_jwt not allowed for this client")
+	}
 	if !ValidateGrantType(client, oidc.GrantTypeTokenExchange) {
 		return nil, oidc.ErrUnauthorizedClient()
 	}
